@@ -18,8 +18,10 @@ import (
 	"errors"
 	"fmt"
 	"io"
+	"sort"
 	"strconv"
 	"strings"
+	"sync"
 	"testing"
 
 	"verifsim/gen/conc"
@@ -38,7 +40,7 @@ func TestC10(t *testing.T) {
 	theT = t
 	sched.Install()
 	tmpl.StringerHook = func(id int) { sched.Yield(sched.YNative, "stringer") }
-	harness.Main(t, harness.Check{Prop: "C10", Exec: exec, ShrinkBudget: 200})
+	harness.Main(t, harness.Check{Prop: "C10", Exec: exec, ShrinkBudget: 200, Retries: 4})
 }
 
 // ---- per-run observation ----------------------------------------------------
@@ -48,6 +50,8 @@ type obs struct {
 	out      strings.Builder // bytes written (templates)
 	printed  strings.Builder // print/println text
 	events   []string        // native events (skeleton programs)
+	asyncMu  sync.Mutex      // natives started with a go statement run in goroutines of their own
+	async    []int           // ids seen by natives started with a go statement
 	err      string
 	panicked bool
 	pval     string
@@ -70,7 +74,11 @@ func (o *obs) print(v any) {
 }
 
 func (o *obs) summary() string {
-	return fmt.Sprintf("out=%q printed=%q events=%v err=%q panicked=%v pval=%q after=%s", o.out.String(), o.printed.String(), o.events, o.err, o.panicked, o.pval, o.after)
+	o.asyncMu.Lock()
+	async := append([]int(nil), o.async...)
+	o.asyncMu.Unlock()
+	sort.Ints(async)
+	return fmt.Sprintf("out=%q printed=%q events=%v async=%v err=%q panicked=%v pval=%q after=%s", o.out.String(), o.printed.String(), o.events, async, o.err, o.panicked, o.pval, o.after)
 }
 
 // yieldWriter is the simulated output writer: every write is a yield point.
@@ -136,6 +144,15 @@ var hPackage = native.Package{Name: "h", Declarations: native.Declarations{
 	},
 	"Err": func(id int) error { return errors.New("e" + strconv.Itoa(id)) },
 	"Yes": func(id int) bool { return true },
+	// Async is started with a go statement: it runs in a goroutine of its
+	// own (owned by the simulator through the GoNative hook).
+	"Async": func(env native.Env, id int) {
+		o := obsOf(env)
+		sched.Yield(sched.YNative, "Async")
+		o.asyncMu.Lock()
+		o.async = append(o.async, id)
+		o.asyncMu.Unlock()
+	},
 }}
 
 // ---- artefacts ---------------------------------------------------------------
@@ -192,7 +209,7 @@ func (a skelArt) build() (runner, error) {
 	for n, src := range a.p.Files {
 		fsys[n] = []byte(src)
 	}
-	prog, err := scriggo.Build(fsys, &scriggo.BuildOptions{Packages: native.Packages{"h": hPackage}})
+	prog, err := scriggo.Build(fsys, &scriggo.BuildOptions{Packages: native.Packages{"h": hPackage}, AllowGoStmt: true})
 	if err != nil {
 		return nil, err
 	}
@@ -260,7 +277,7 @@ func exec(r *harness.Run) *harness.Violation {
 			inputs[i].desc = fmt.Sprintf("vars#%d", i)
 		}
 	case 1:
-		p := skel.Gen(s, skel.Options{Feature: r.Feature})
+		p := skel.Gen(s, skel.Options{Feature: r.Feature, GoNative: true})
 		art = skelArt{p}
 		for i := range inputs {
 			pl := splan{}
